@@ -174,7 +174,7 @@ def repair(n, raw):
 # Hypothesis strategies
 
 _K = [1, 2, 2, 0, 1, 2]
-MODES = ["uniform", "local", "motif", "structured", "dense", "compose", "compose"]
+MODES = ["uniform", "local", "motif", "structured", "dense", "compose", "compose", "nests"]
 
 _LIB = None
 
@@ -283,6 +283,8 @@ def closed_cfgs(draw, max_n=14, min_n=3, modes=MODES):
         return draw(structured_cfgs(max_n))
     if mode == "compose":
         return draw(composed_cfgs(max_n))
+    if mode == "nests":
+        return draw(nest_cfgs())
     n = draw(st.integers(min_n, max_n))
     raw = {i: [] for i in range(n)}
     # spanning skeleton: every block gets a predecessor among earlier blocks
@@ -384,15 +386,74 @@ def _stmts(depth):
             st.tuples(st.just("if"), sub, st.just([])),
             st.tuples(st.just("while"), sub),
             st.tuples(st.just("whileelse"), sub, sub),
+            st.tuples(st.just("dowhile"), sub),
+            st.tuples(st.just("dowhile_bf"), sub),
         ),
         min_size=1,
         max_size=4,
     )
 
 
+def contract(g, keep=()):
+    """bypass pass-through blocks (one successor, not a self loop): every arc into such a block goes to its successor
+    instead, unless that would give the predecessor the same target twice.  What remains has no empty join / exit
+    blocks: a loop then leaves directly to the continuation of the construct around it, as in real code."""
+    g = {k: list(v) for k, v in g.items()}
+    changed = True
+    while changed:
+        changed = False
+        for v in sorted(g):
+            if v == 0 or v in keep or len(g[v]) != 1 or g[v][0] == v:
+                continue
+            w = g[v][0]
+            preds = [u for u in g if v in g[u]]
+            if not preds or any(w in g[u] for u in preds):
+                continue
+            for u in preds:
+                g[u] = [w if t == v else t for t in g[u]]
+            del g[v]
+            changed = True
+            break
+    order = sorted(g)
+    ren = {o: i for i, o in enumerate(order)}
+    return repair(len(order), {ren[u]: [ren[t] for t in g[u]] for u in order})
+
+
+@st.composite
+def nest_cfgs(draw):
+    """loop nests 2-4 deep whose levels are while / do-while loops (the do-while levels keep their original latch),
+    with linear or branching bodies, placed in a branch arm (whose other arm may leave differently), after a branch,
+    or inside another loop"""
+    k = draw(st.integers(2, 4))
+    inner = [draw(st.sampled_from(["S", "S", ("if", ["S"], ["B"]), ("if", ["S"], [])]))]
+    for lvl in range(k):
+        kind = draw(st.sampled_from(["while", "dowhile", "dowhile_bf", "dowhile_bf", "dowhile_bf", "whileelse"]))
+        pre = draw(st.sampled_from([[], [], ["S"], ["S"], [("if", ["C"], [])], [("if", ["S"], ["B"])]]))
+        post = draw(st.sampled_from([[], [], [], ["S"], [("if", ["B"], [])]]))
+        body = pre + inner + post
+        inner = [(kind, body, ["S"])] if kind == "whileelse" else [(kind, body)]
+    # 1-3 surrounding contexts, innermost first: an arm of an if (the other arm falls through, returns, breaks or is
+    # empty), statements before / after, another loop
+    prog = inner
+    for _ in range(draw(st.integers(1, 4))):
+        w = draw(st.integers(0, 7))
+        alt = draw(st.sampled_from([["S"], ["S"], [], [], [], ["R"], ["B"], ["C"]]))  # if without else is the commonest construct
+        if w <= 1:
+            prog = [("if", prog, alt)]
+        elif w == 2:
+            prog = [("if", alt, prog)]
+        elif w == 3:
+            prog = ["S"] + prog
+        elif w == 4:
+            prog = prog + draw(st.sampled_from([["S"], [("if", ["R"], [])], [("if", ["S"], ["S"])]]))
+        else:
+            prog = [(("while", "dowhile", "dowhile_bf")[w - 5], prog)]
+    return cfg_of_structured(prog, tight=draw(st.integers(0, 3)) > 0)
+
+
 @st.composite
 def structured_cfgs(draw, max_n=14):
-    depth = 2 if max_n <= 14 else 4
+    depth = draw(st.sampled_from([2, 2, 3])) if max_n <= 14 else 4
     prog = draw(_stmts(depth))
     g = cfg_of_structured(prog)
     d = depth
@@ -415,11 +476,14 @@ def _flatten_below(prog, d):
     return out
 
 
-def cfg_of_structured(prog):
+def cfg_of_structured(prog, tight=False):
     """CFG of a structured skeleton: S basic, B break, C continue, R return,
     (if, then, else), (while, body), (whileelse, body, else).  Own builder
-    (not the library front end)."""
+    (not the library front end).  tight: the empty join / exit / else blocks
+    are bypassed afterwards (statement blocks stay), so that a construct
+    leaves directly to the continuation of the construct around it."""
     succ: dict[int, list[int]] = {}
+    stmt_blocks = set()
 
     def new():
         i = len(succ)
@@ -433,6 +497,7 @@ def cfg_of_structured(prog):
             if s == "S":
                 nxt = new()
                 succ[cur] = [nxt]
+                stmt_blocks.add(cur)
                 cur = nxt
             elif s == "R":
                 succ[cur] = []
@@ -457,6 +522,16 @@ def cfg_of_structured(prog):
                 if ee is not None:
                     succ[ee] = [j]
                 cur = j
+            elif s[0] in ("dowhile", "dowhile_bf"):
+                # body first, then a block that is both the only latch and the only exiting block of the loop (the
+                # shape for which loop restructuring declares the back edge on the ORIGINAL block); _bf: the back edge
+                # is listed before the exit
+                b, x = new(), new()
+                succ[cur] = [b]
+                eb = build(s[1], b, (b, x))
+                if eb is not None:
+                    succ[eb] = [b, x] if s[0] == "dowhile_bf" else [x, b]
+                cur = x
             elif s[0] in ("while", "whileelse"):
                 h, b, x, el = new(), new(), new(), new()
                 succ[cur] = [h]
@@ -474,6 +549,8 @@ def cfg_of_structured(prog):
     first = new()
     succ[entry] = [first]
     build(prog, first, None)
+    if tight:
+        return contract(succ, keep=stmt_blocks)
     return repair(len(succ), succ)
 
 
